@@ -34,6 +34,8 @@ def render_manifest(g, builddir=None, style=None):
       include:     (a, b) — statements of steps a..b (1-based, contiguous) go to `inc.ninja`
                    which is included in their place; returns (text, [(path, text)])
       blank:       blank lines between statements
+      sharedrule:  plain steps share one rule whose command and pool are `$c` and `$p`, bound
+                   in each build block
     """
     style = style or {}
     rp = style.get("rule_prefix", "r")
@@ -49,12 +51,23 @@ def render_manifest(g, builddir=None, style=None):
         main.append("pool %s" % name)
         main.append("  depth = %d" % depth)
     placed_include = False
+    shared = bool(style.get("sharedrule"))
+    if shared:
+        # one rule for every plain step (no depfile, deps, response file or description): what
+        # differs per step comes from the build block's own bindings
+        main += ["rule %s_shared" % rp, "  command = $c", "  pool = $p"]
     for i, s in enumerate(g["steps"]):
         lines = []
         rule = "phony"
+        block = []
         if style.get("comments"):
             lines.append("# step %d" % (i + 1))
-        if not s["phony"]:
+        if shared and not s["phony"] and not (s["desc"] or s["depfile"] or s["msvc"] or s["hasrsp"]):
+            rule = "%s_shared" % rp
+            block.append("  c = %s" % esc_val(s["cmd"]))
+            if s["pool"]:
+                block.append("  p = %s" % s["pool"])
+        elif not s["phony"]:
             rule = "%s%d" % (rp, i + 1)
             cmdref = esc_val(s["cmd"])
             if style.get("cmdvars"):
@@ -91,6 +104,7 @@ def render_manifest(g, builddir=None, style=None):
         if s["val"]:
             b += " |@ " + " ".join(P(p) for p in s["val"])
         lines.append(b)
+        lines += block
         if style.get("blank"):
             lines.append("")
         if inc_range and inc_range[0] <= i + 1 <= inc_range[1]:
